@@ -54,7 +54,8 @@ impl Future for Sleep {
 		if self.ns == 0 {
 			// tokio completes an elapsed sleep at the first poll unless its co-operative budget
 			// is exhausted, in which case it yields once: the run's zero_yield coin picks one.
-			let yield_once = self.traced && world::with(|w| w.plan.sched.zero_yield) && !self.yielded;
+			let yield_once =
+				self.traced && world::with(|w| w.plan.sched.zero_yield) && !self.yielded;
 			if !yield_once {
 				return Poll::Ready(());
 			}
